@@ -142,8 +142,10 @@ def rainfall_partition(
             cn = round(CNbot + (CNtop - CNbot) * wet_top)
 
         # A curve number of 100 means no retention at all; field management
-        # adjustments cannot raise it further
-        cn = min(cn, 100)
+        # adjustments cannot raise it further. Nor can they lower it to 0 (an
+        # adjustment of -100 %, or a rounded moisture-adjusted value): below 1
+        # the retention is unlimited for any rainfall
+        cn = max(min(cn, 100), 1)
 
         # Partition rainfall into runoff and infiltration (mm)
         S = (25400 / cn) - 254
